@@ -613,13 +613,13 @@ type c51Result struct {
 
 // c51Validate applies the independent validity predicates to a returned
 // non-challenge certificate.
-func c51Validate(h c51Hello, cert *tls.Certificate, now time.Time, accepts func(string) bool, anyHost bool) error {
+func c51Validate(h c51Hello, cert *tls.Certificate, now time.Time, accepts func(string) bool, acceptedList []string, anyHost bool) error {
+	// When the harness claims no normal form for the ServerName (characters outside
+	// the reference's alphabet) the name-specific predicates are replaced by: the
+	// leaf covers some name the policy accepts.
 	exp := h.Expect
-	if exp == "" {
-		exp = h.Name
-	}
 	domain := strings.TrimSuffix(exp, ".")
-	if !anyHost && !accepts(exp) && !accepts(domain) {
+	if exp != "" && !anyHost && !accepts(exp) && !accepts(domain) {
 		return fmt.Errorf("certificate returned for ServerName %q (normal form %q), which the HostPolicy does not accept", h.Name, exp)
 	}
 	if len(cert.Certificate) == 0 {
@@ -632,8 +632,18 @@ func c51Validate(h c51Hello, cert *tls.Certificate, now time.Time, accepts func(
 	if now.Before(leaf.NotBefore) || now.After(leaf.NotAfter) {
 		return fmt.Errorf("certificate for %q is not valid now: NotBefore=%v NotAfter=%v now=%v", h.Name, leaf.NotBefore.UTC(), leaf.NotAfter.UTC(), now.UTC())
 	}
-	if err := leaf.VerifyHostname(domain); err != nil {
-		return fmt.Errorf("certificate for %q (domain %q) does not cover the name: %v (DNSNames %q)", h.Name, domain, err, leaf.DNSNames)
+	if exp != "" {
+		if err := leaf.VerifyHostname(domain); err != nil {
+			return fmt.Errorf("certificate for %q (domain %q) does not cover the name: %v (DNSNames %q)", h.Name, domain, err, leaf.DNSNames)
+		}
+	} else if !anyHost {
+		ok := false
+		for _, a := range acceptedList {
+			ok = ok || leaf.VerifyHostname(strings.TrimSuffix(a, ".")) == nil
+		}
+		if !ok {
+			return fmt.Errorf("certificate returned for ServerName %q covers no name the HostPolicy accepts (DNSNames %q, accepted %q)", h.Name, leaf.DNSNames, acceptedList)
+		}
 	}
 	signer, ok := cert.PrivateKey.(crypto.Signer)
 	if !ok {
@@ -997,7 +1007,7 @@ func c51ManagerScenario(rt *rapid.T, c *ev.Collector) {
 				continue
 			}
 			served++
-			if err := c51Validate(h, r.cert, now, accepts, anyHost); err != nil {
+			if err := c51Validate(h, r.cert, now, accepts, sc.Accepted, anyHost); err != nil {
 				rt.Fatalf("VF-VIOLATION: property=C51 %v [policy=%s accepted=%q cache=%s]", err, sc.Policy, sc.Accepted, sc.Cache)
 			}
 		}
